@@ -174,6 +174,74 @@ def r01b(rep, F):
                     'a motion/vertex/edge is marked valid on a path where no check succeeded: the lazy planner then reports it unchecked',
                     cl.paths_.get(sid))
     rep.require_count('R01b', 'lazy validity marks', n, 5)
+    # (b) new graph elements of the lazy roadmap start UNKNOWN: whatever the origin of a vertex or edge (grown, imported from planner data,
+    # added for a start or goal), a plain assignment to a validity property stores VALIDITY_UNKNOWN; VALIDITY_TRUE is only ever or-ed in
+    # by the validated walk above
+    m = 0
+    for f in F.functions:
+        if not f.body or not f.file.endswith('.cpp') or not ((f.record or '').endswith('::LazyPRM') or '::LazyPRM::' in (f.d.get('lambda_of') or '')):
+            continue
+        for x in f.walk():
+            if (x['k'] == 'BinaryOperator' and x.get('op') == '=') or (x['k'] == 'CXXOperatorCallExpr' and x.get('oop') == '='):
+                t = nofp(f.fp(x['ch'][0]))
+                if 'ValidityProperty_' not in t:
+                    continue
+                m += 1
+                rhs = nofp(f.fp(x['ch'][-1]))
+                ok = 'VALIDITY_UNKNOWN' in rhs and 'VALIDITY_TRUE' not in rhs
+                kind = 'edge' if 'edgeValidity' in t else 'vertex'
+                k = len([1 for o in rep.obl if o['rule'] == 'R01b' and o['function'] == f.name and o['role'].startswith('initial-validity')])
+                rep.add('R01b', f.name, 'initial-validity:%s#%d' % (kind, k), ok, f.where(x),
+                        'a new %s starts with unknown validity' % kind if ok else
+                        'a %s is created with validity %s: constructSolution() skips the check of everything already marked valid, so an '
+                        'unchecked %s can be reported' % (kind, rhs.split('::')[-1], 'motion' if kind == 'edge' else 'state'))
+    rep.require_count('R01b', 'initial validity stores of the lazy roadmap', m, 6)
+    # (c) the extraction-time validation looks at EVERY extracted node before the path is reported: the loop that validates mpath[i]
+    # (if (!mpath[i]->valid) { check ... mpath[i]->valid = true ... }) runs from the last index down to 0 and can only stop early
+    # through the failure verdict (a bool that the failing branch clears, or a return false)
+    m = 0
+    for f in F.functions:
+        if not f.body or not f.file.endswith('.cpp') or '/geometric/planners/' not in f.file:
+            continue
+        for lp in [x for x in f.walk() if x['k'] == 'ForStmt' and x.get('body')]:
+            marks = [x for x in f.walk(lp['body']) if x['k'] == 'BinaryOperator' and x.get('op') == '=' and
+                     (f.strip(x['ch'][0]) or {}).get('name') == 'valid' and (f.strip(x['ch'][1]) or {}).get('v') is True and
+                     'operator[]' in f.fp(x['ch'][0]) and _nearest_loop(f, x['id']) == lp['id']]
+            if not marks or not any(P.is_motion_check(c, W) for c in f.walk(lp['body'])):
+                continue
+            m += 1
+            conj = []
+
+            def flat(nid):
+                e = f.strip(nid)
+                if e is not None and e['k'] == 'BinaryOperator' and e.get('op') == '&&':
+                    flat(e['ch'][0]); flat(e['ch'][1])
+                elif e is not None:
+                    conj.append(e)
+            if lp.get('cond'):
+                flat(lp['cond'])
+            flags = set()
+            for x in f.walk(lp['body']):
+                if x['k'] == 'BinaryOperator' and x.get('op') == '=' and (f.strip(x['ch'][1]) or {}).get('v') is False and key(f, x['ch'][0]):
+                    flags.add(key(f, x['ch'][0]))
+            extra = []
+            bound = 0
+            for e in conj:
+                if lin.cmp_le0(f, e['id']) is not None and any(y['k'] == 'DeclRefExpr' and y.get('dk') == 'Local' for y in f.walk(e['id'])) and e['k'] == 'BinaryOperator':
+                    bound += 1
+                elif e['k'] == 'DeclRefExpr' and key(f, e['id']) in flags:
+                    pass
+                else:
+                    extra.append(nofp(f.fp(e['id'])))
+            brk = [x for x in f.walk(lp['body']) if x['k'] == 'BreakStmt' and _nearest_loop(f, x['id']) == lp['id']]
+            bad_brk = [b for b in brk if not any(x['k'] == 'BinaryOperator' and x.get('op') == '=' and key(f, x['ch'][0]) in flags
+                                                 for x in f.walk(f.parent.get(b['id'])))]
+            ok = bound == 1 and not extra and not bad_brk
+            rep.add('R01b', f.name, 'validation-covers-every-node', ok, f.where(lp),
+                    'the validation loop stops early only through the failure verdict' if ok else
+                    'the validation loop can also end through %s while the verdict is still positive: the nodes not yet looked at are '
+                    'reported unchecked' % (', '.join(extra) if extra else 'a break that does not clear the verdict'))
+    rep.require_count('R01b', 'extraction-time validation loops', m, 4)
     cs = F.one(G + 'LazyPRM::constructSolution')
     dos = [x for x in cs.walk() if x['k'] == 'DoStmt' and any(P.is_motion_check(c) for c in cs.walk(x['body']))]
     if len(dos) != 1:
@@ -1342,6 +1410,74 @@ def r01w(rep, F, rule='R01w', pat=('/geometric/planners/', '/multilevel/'), froz
     rep.require_count(rule, 'path assemblies from parent-walk lists', n, frozen)
 
 
+def _subscripts(f, root, fam):
+    """[(array key, index node id, is_write)] for subscripts of family members under root"""
+    out = []
+    for n in f.walk(root):
+        if n['k'] == 'CXXOperatorCallExpr' and n.get('oop') == '[]' or n['k'] == 'ArraySubscriptExpr':
+            a = key(f, n['ch'][0])
+            if a in fam:
+                par = f.nodes.get(f.parent.get(n['id']))
+                while par is not None and par['k'] in ('ParenExpr', 'ImplicitCastExpr'):
+                    par = f.nodes.get(f.parent.get(par['id']))
+                w = par is not None and ((par['k'] in ('BinaryOperator', 'CompoundAssignOperator') and par.get('op', '=').endswith('=') and
+                                          par.get('op') not in ('==', '!=', '<=', '>=') and f.strip(par['ch'][0]) is f.strip(n['id'])) or
+                                         (par['k'] == 'CXXOperatorCallExpr' and par.get('oop') == '=' and f.strip(par['ch'][0]) is f.strip(n['id'])))
+                out.append((a, n['ch'][1], bool(w)))
+    return out
+
+
+def r01x(rep, F):
+    rep.rule('R01x', 'parallel arrays are indexed together: local vectors sized by one expression (costs.resize(nbh.size()), '
+                     'valid.resize(nbh.size()), ...) describe the same neighbour at the same index.  In a loop body that WRITES an element of '
+                     'one of them (valid[k] = 1: "the motion to neighbour k was checked and is valid"), every other subscript of the family in '
+                     'that body uses the same index expression; arrays that hold indices into the family (a sorted permutation) are not '
+                     'members.  A verdict cached at position i for the neighbour at position perm[i] marks an unchecked motion as valid, and '
+                     'the rewiring step links it without a motion check')
+    n = 0
+    for f in F.functions:
+        if not f.body or not f.file.endswith('.cpp') or '/geometric/planners/' not in f.file:
+            continue
+        sized = {}
+        for c in f.walk():
+            cal = c.get('callee') or ''
+            if cal.endswith(('vector::resize', 'vector::assign')) and c['k'] == 'CXXMemberCallExpr' and args(f, c):
+                a = key(f, c['ch'][0])
+                szn = f.strip(args(f, c)[0])
+                if a and szn is not None and (szn.get('callee') or '').endswith('::size'):
+                    base = key(f, szn['ch'][0])
+                    if base:
+                        sized.setdefault(base, set()).add(a)
+        for base, fam in sized.items():
+            fam = set(fam) | {base}
+            if len(fam) < 3:
+                continue
+            # permutation arrays: a family member whose element is used as the index of another member
+            perms = set()
+            for (a, idx, w) in _subscripts(f, None, fam):
+                for (a2, idx2, w2) in _subscripts(f, idx, fam):
+                    perms.add(a2)
+            members = fam - perms
+            loops = [x for x in f.walk() if x['k'] in ('ForStmt', 'WhileStmt', 'DoStmt', 'CXXForRangeStmt') and x.get('body')]
+            for lp in loops:
+                subs = [(a, idx, w) for (a, idx, w) in _subscripts(f, lp['body'], members) if _nearest_loop(f, idx) == lp['id']]
+                writes = [t for t in subs if t[2]]
+                if not writes or len({a for a, _, _ in subs}) < 2:
+                    continue
+                n += 1
+                fps = {}
+                for (a, idx, w) in subs:
+                    fps.setdefault(nofp(f.fp(idx)), []).append((a, w))
+                ok = len(fps) == 1
+                k = len([1 for o in rep.obl if o['rule'] == 'R01x' and o['function'] == f.name])
+                rep.add('R01x', f.name, 'parallel-index#%d' % k, ok, f.where(lp),
+                        'every subscript of {%s} in the loop uses index %s' % (', '.join(sorted(nofp(m) for m in members)), list(fps)[0]) if ok else
+                        'in one loop body the arrays sized by %s.size() are indexed differently: %s -- an element written for one neighbour is read '
+                        'back for another' % (nofp(base), '; '.join('%s[%s]' % ('/'.join(sorted({nofp(a) + ('(written)' if w else '') for a, w in v})), kx)
+                                                                      for kx, v in sorted(fps.items()))))
+    rep.require_count('R01x', 'loops that write parallel arrays', n, 5)
+
+
 def run(rep):
     units = P.geometric_units() + P.multilevel_units() + P.base_units() + [facts.src('base', 'goals', 'src', g) for g in
                                                                           ('GoalRegion.cpp', 'GoalState.cpp', 'GoalStates.cpp')]
@@ -1375,6 +1511,7 @@ def run(rep):
     r01o(rep, F)
     r01r(rep, F)
     r01w(rep, F)
+    r01x(rep, F)
     # R01s: the (best distance / cost, what it belongs to) pairing rule of C04 (R04j), evaluated here over every geometric planner:
     # the reported goal difference and the path / node / flag it describes are updated together
     from rules import c04
